@@ -178,8 +178,13 @@ class Excel_EAMTabulation(_EAMTabulationAbstractbase):
 
   def _build_workbook(self):
     self._inner_tabulation = Excel_PairTabulation(self.potentials, self.cutoff, self.nr)
-    wb = self._inner_tabulation.workbook
-    self._add_sheets(wb)
+    try:
+      wb = self._inner_tabulation.workbook
+      self._add_sheets(wb)
+    except:
+      # Do not keep a partially populated workbook: a later write() must rebuild it.
+      self._inner_tabulation = None
+      raise
 
   def _add_sheets(self, wb):
     self._add_eam_density(wb)
